@@ -5,7 +5,7 @@ Require GenProofs_FrameMeas.
 Require Pauli Sem Uniform RefFold Loops.
 Require Import Stab Act Spec SpecProofs GF2 Gen_GateTable Gen_Frame GenProofs_Frame.
 Require GenProofs_TabMeas.
-Require Run FrameRun FrameComplete RunComplete FrameProg Collapse Refine.
+Require Run FrameRun FrameComplete RunComplete FrameProg FrameUniform Collapse Refine.
 
 (* (1) Tie G: every unitary FrameSimulator routine (translated from frame_simulator.inl) equals the documented gate action
        with the sign dropped, on frames of any size and any target list; every fixed unitary of the table is dispatched
@@ -180,3 +180,27 @@ Theorem C02_reset_rule_clears_the_x_component : forall n q F (z : bool), q < n -
 Proof. exact FrameProg.reset_clears_x. Qed.
 Print Assumptions C02_frame_sampler_exact_on_adaptive_programs. Print Assumptions C02_stim_instructions_are_programs.
 Print Assumptions C02_reset_rule_clears_the_x_component.
+
+(* Unbiasedness.  The flips the sampler reports are a GF(2)-linear function of (frame, earlier flips, randomisation bits), also
+   through feedback and resets; from the all-zero state every reachable flip pattern therefore has the same number of preimages
+   among the 2^(n+m) choices of (initial Z frame, randomisation bits), so uniform bits give a record that is uniform on
+   reference xor reachable flips - the set of legal records (C02_frame_sampler_exact_on_adaptive_programs). *)
+Theorem C02_flips_are_linear_in_the_randomisation :
+  forall (n : nat) (prog : list FrameProg.pop) (F1 F2 : Pauli.pauli) (fl1 fl2 zs1 zs2 : list bool),
+  Forall (FrameProg.okp n) prog -> Refine.wf n F1 -> Refine.wf n F2 -> List.length fl1 = List.length fl2 -> List.length zs1 = List.length zs2 ->
+  FrameUniform.flipsp (Pauli.pmul F1 F2) (GF2.vxor fl1 fl2) (GF2.vxor zs1 zs2) prog =
+  GF2.vxor (FrameUniform.flipsp F1 fl1 zs1 prog) (FrameUniform.flipsp F2 fl2 zs2 prog).
+Proof. exact FrameUniform.flipsp_linear. Qed.
+Theorem C02_every_reachable_record_is_equally_likely :
+  forall (n : nat) (prog : list FrameProg.pop), Forall (FrameProg.okp n) prog ->
+  forall x0 x1 : list bool, List.length x0 = n + List.length prog -> List.length x1 = n + List.length prog ->
+  Uniform.fiber (n + List.length prog) (FrameUniform.shotflips n prog) FrameUniform.veqb (FrameUniform.shotflips n prog x0) =
+  Uniform.fiber (n + List.length prog) (FrameUniform.shotflips n prog) FrameUniform.veqb (FrameUniform.shotflips n prog x1).
+Proof. exact FrameUniform.shots_uniform. Qed.
+Theorem C02_sampler_record_is_reference_xor_flips :
+  forall (ext : nat -> bool) (prog : list FrameProg.pop) (l : list (Run.op * option bool)) (F : Pauli.pauli) (rr ra fl zs : list bool),
+  FrameProg.realize ext rr prog l -> (forall k, xorb (nth k rr false) (nth k ra false) = nth k fl false) ->
+  FrameUniform.results (FrameProg.fprun ext ext F rr ra zs prog l) = GF2.vxor (FrameUniform.results l) (FrameUniform.flipsp F fl zs prog).
+Proof. exact FrameUniform.fprun_results. Qed.
+Print Assumptions C02_flips_are_linear_in_the_randomisation. Print Assumptions C02_every_reachable_record_is_equally_likely.
+Print Assumptions C02_sampler_record_is_reference_xor_flips.
